@@ -240,12 +240,101 @@ pub fn run(tier: Tier, seed: u64) -> i32 {
     // ---- E. closed forms ---------------------------------------------------
     closed_forms(&ev, tier, seed);
 
+    super::c18::sanitizer_summary(&ev, "C19");
     ev.floor("domain sizes", ev.set_len("sizes") as u64, (max_log + 1) as u64);
     ev.floor("length classes", ev.set_len("length_classes") as u64, 7);
     ev.floor("pool sizes", ev.set_len("pools") as u64, tier.pick(8, 17));
     ev.floor("poly ops", ev.bucket_get("poly.cases"), 200);
     ev.floor("closed form in-domain points", ev.bucket_get("closed.in_domain"), 20);
     ev.finish()
+}
+
+/// Tiny serial workload for Miri (`--sub miri`, alloc-only build): the
+/// scalar-field kernels at sizes <= 2^4 against their definitions.
+pub fn miri_workload(seed: u64) -> i32 {
+    let mut rng = case_rng(seed, "C19.miri", 0);
+    let mut checked = 0u64;
+    for log in 0..=3u32 {
+        let size = 1usize << log;
+        let v: Vec<BlsScalar> = (0..size).map(|_| rand_scalar(&mut rng)).collect();
+        for k in KERNELS {
+            match run_kernel(k, size, &v) {
+                Ok(o) if o == reference_full(k, size, &v) => checked += 1,
+                other => {
+                    println!("MIRI-WORKLOAD mismatch {k:?} size {size}: {:?}", other.map(|o| o.len()));
+                    return 3;
+                }
+            }
+        }
+    }
+    let a: Vec<BlsScalar> = (0..5).map(|_| rand_scalar(&mut rng)).collect();
+    let b: Vec<BlsScalar> = (0..3).map(|_| rand_scalar(&mut rng)).collect();
+    if rf::trim(dv::poly_mul(&a, &b)) != rf::mul(&a, &b) || rf::trim(dv::poly_add(&a, &b)) != rf::add(&a, &b) {
+        println!("MIRI-WORKLOAD polynomial mismatch");
+        return 3;
+    }
+    let z = rand_scalar(&mut rng);
+    if rf::trim(dv::poly_ruffini(&a, z)) != rf::div_linear(&a, &z).0 {
+        println!("MIRI-WORKLOAD ruffini mismatch");
+        return 3;
+    }
+    let mut inv = vec![a[0], BlsScalar::zero(), a[1]];
+    dv::batch_inversion(&mut inv);
+    if inv != vec![a[0].invert().unwrap(), BlsScalar::zero(), a[1].invert().unwrap()] {
+        println!("MIRI-WORKLOAD batch inversion mismatch");
+        return 3;
+    }
+    // decoders of scalars / polynomials / evaluations
+    let bytes = dv::poly_to_var_bytes(&a);
+    if dv::poly_from_slice(&bytes).ok() != Some(a.clone()) {
+        println!("MIRI-WORKLOAD polynomial decode mismatch");
+        return 3;
+    }
+    let eb = dv::evaluations_to_var_bytes(4, &a[..4]).unwrap();
+    if dv::evaluations_from_slice(&eb).map(|(_, e)| e).ok() != Some(a[..4].to_vec()) {
+        println!("MIRI-WORKLOAD evaluations decode mismatch");
+        return 3;
+    }
+    println!("MIRI-WORKLOAD C19 checked={}", checked + 5);
+    0
+}
+
+/// Light parallel workload for the ThreadSanitizer build (`--sub sanitizer`).
+pub fn sanitizer_workload(seed: u64) -> i32 {
+    let mut runs = 0u64;
+    for log in [12u32, 13] {
+        let size = 1usize << log;
+        let mut rng = case_rng(seed, "C19.san", log as u64);
+        let v: Vec<BlsScalar> = (0..size).map(|_| rand_scalar(&mut rng)).collect();
+        for k in KERNELS {
+            let mut first: Option<Vec<BlsScalar>> = None;
+            for p in [1usize, 4, 16, 17] {
+                let pool = rayon::ThreadPoolBuilder::new().num_threads(p).build().unwrap();
+                let out = pool.install(|| run_kernel(k, size, &v));
+                runs += 1;
+                match (&first, out) {
+                    (None, Ok(o)) => first = Some(o),
+                    (Some(f), Ok(o)) => {
+                        if *f != o {
+                            println!("SANITIZER-WORKLOAD mismatch {k:?} size {size} pool {p}");
+                            return 3;
+                        }
+                    }
+                    (_, Err(e)) => {
+                        println!("SANITIZER-WORKLOAD error {e}");
+                        return 3;
+                    }
+                }
+            }
+        }
+        // polynomial multiplication and batch kernels use the same pool
+        let a: Vec<BlsScalar> = v[..300].to_vec();
+        let _ = dv::poly_mul(&a, &a);
+        let _ = dv::evaluate_all_lagrange_coefficients(size, rand_scalar(&mut rng));
+        let _ = dv::compute_barycentric_eval(&v, &rand_scalar(&mut rng), size);
+    }
+    println!("SANITIZER-WORKLOAD C19 runs={runs}");
+    0
 }
 
 fn digest(v: &[BlsScalar]) -> String {
